@@ -253,7 +253,7 @@ class Tolerant(nn.Module):
             input (torch.Tensor): the input tensor (non-negative).
         '''
         assert torch.all(input >= 0), 'input has to be non-negative'
-        result = self.b * (1 + ((input-self.a) / self.b).exp()).log()
+        result = self.b * torch.nn.functional.softplus((input-self.a) / self.b, threshold=50.0)
         offset = self.b * math.log((1 + math.exp(-self.a / self.b))) # constant, no grad.
         return result - offset
 
